@@ -344,5 +344,29 @@ PROPS["C18"] = {
                     "block rewrites atomic; reordering by the OS page cache is outside the property"],
 }
 
+PROPS["C16"] = {
+    "engine": "scheduler",
+    "rule": "programs of 2-3 concurrent iterator requests (1-2 index_batch_crawl_iter with overlapping pages, "
+            "add_webentity_creation_rule_iter, one query iterator among pages / crawled pages / most-linked / child webentities / "
+            "pagelinks / cited / citing / network fast+slow in both directions) on a fresh index each time, with "
+            "TraphIteratorState.should_yield forced to True so every loop iteration is a scheduling point; random schedules "
+            "(uniform, sticky, bursty) and, for a share of the programs, ALL interleavings by stateless depth-first search. After "
+            "every step the raw bytes are decoded to get the qualifying items of the running query; oracles: no request raises, "
+            "final pages/crawled marks/link multigraph = batches applied sequentially (model), S1-S7 incl. inbound/outbound "
+            "symmetry, query answer within [qualified at every moment, qualified at some moment]. A schedule is non-trivial when it "
+            "has >= 4 steps and actually alternates between >= 2 requests; distinct = distinct (program, schedule).",
+    "nontrivial": None,
+    "deciding_counters": ["C16_schedules", "C16_final_state_checks", "C16_query_brackets", "C16_query_windows_with_state_change"],
+    "anchors": ["Traph.index_batch_crawl_iter", "Traph.add_webentity_creation_rule_iter", "TraphIteratorState.should_yield",
+                "Traph.get_webentities_links_iter", "Traph.get_webentity_pages_iter", "LRUTrieNode.refresh"],
+    "quick": dict(programs=260, schedules_per_program=10, exhaustive_limit=400, exhaustive_share=0.1, max_sources=3, max_targets=3,
+                  time_cap=100, watchdog=400, min_cases=500),
+    "thorough": dict(programs=3000, schedules_per_program=24, exhaustive_limit=20000, exhaustive_share=0.3, max_sources=3, max_targets=4,
+                     time_cap=1000, watchdog=1700, min_cases=8000),
+    "level": "exploration",
+    "assumptions": ["schedules are explored at the forced yield points of the existing generator structure; preemptive threads are out of scope (the code has none)",
+                    "network queries: an aggregated pair whose two ends never resolved simultaneously (cross-moment aggregate) is inside the upper bracket by construction and therefore not judged"],
+}
+
 # properties deliberately not claimed (none so far): id -> reason
 NOT_APPLICABLE = {}
